@@ -23,6 +23,21 @@ CLAIMED = {
         "parse_units' derived-symbol tables (tied by correspondence, exhaustive on the symbol tables, sampled on triples); "
         "binary64 rounding bounded by the property's own 1e-12; the Python harness.",
         "DESIGN.md section 6 / C06"),
+    "C15": (
+        "Coq proof over Z (index/coordinate bijection, per-axis neighbour multiplicities lifted to 3-D, engine neighbour involution) + exhaustive small-grid correspondence",
+        "Theorems (Props/C15.v, closed under the global context, every w,h,d >= 1 and all 8 boundary mixes): index = z*w*h+y*w+x "
+        "and coordinates are mutually inverse on the grid; positions outside are rejected in every form; get_neighbors, the kinetics "
+        "candidate list, the engine's neighbour table and are_neighbors define the same symmetric relation between distinct cells "
+        "with the same multiplicity (2 on a periodic axis of length 2), following the per-axis reflecting/periodic rule; the engine's "
+        "neighbour table is an involution under direction reversal. Tied to the code on every run by an exhaustive sweep of all grids "
+        "with w*h*d <= 24 (quick) / 64 (thorough) through the public API, and, up to 8 / 12 cells, of the kinetics functions and one "
+        "step of the freshly compiled Euler engine on the grid and on grid_to_graph(grid) (pure-diffusion probe x_c = 8^c, exact). "
+        "grid_to_graph's node and edge lists are compared with the model's edge multiset (adjacency, surface h^2, distance h).",
+        "Trusted: Coq kernel + VM; the hand-written Gallina transcription of rdgridspace.py / kinetics.py candidates / GetNeighborIndex / "
+        "grid_to_graph (tied by the exhaustive sweep on the stated bound, not beyond); the statement that grid_to_graph preserves the "
+        "edge multiset and that graph dynamics equal grid dynamics is established by correspondence only (exhaustive on the bound), "
+        "not yet by a theorem; the Python harness; g++ for the engine build.",
+        "DESIGN.md section 6 / C15"),
 }
 
 NOT_YET = "check not built yet in this round (work in progress; see DESIGN.md section 9 for the order of work)"
